@@ -30,6 +30,10 @@ type Config struct {
 	Label func(op int) string
 }
 
+// Disabled is returned as the key by Step for an operation that is not enabled in the reached
+// state (protocol precondition): it is not counted as a transition and not expanded.
+const Disabled = "\x00disabled"
+
 type node struct {
 	h []int
 }
@@ -78,6 +82,9 @@ func Explore(r *core.Run, c Config) {
 	pcache := map[string]pe{}
 	stepCounted := func(h []int, count bool) (string, bool) {
 		key, expand := c.Step(h)
+		if key == Disabled {
+			return key, false
+		}
 		if count {
 			r.Eval()
 			r.Count("transitions", 1)
@@ -109,7 +116,7 @@ func Explore(r *core.Run, c Config) {
 					}
 				}
 				key, expand := stepCounted(p[:k], count)
-				if count {
+				if count && key != Disabled {
 					if _, dup := seen[key]; !dup {
 						seen[key] = struct{}{}
 						r.Count("states", 1)
@@ -124,6 +131,9 @@ func Explore(r *core.Run, c Config) {
 			continue
 		}
 		key, expand := stepCounted(p, true)
+		if key == Disabled {
+			continue
+		}
 		if _, dup := seen[key]; !dup {
 			seen[key] = struct{}{}
 			r.Count("states", 1)
@@ -147,6 +157,9 @@ func Explore(r *core.Run, c Config) {
 			for op := 0; op < c.NOps; op++ {
 				h := append(append(make([]int, 0, len(n.h)+1), n.h...), op)
 				key, expand := stepCounted(h, true)
+				if key == Disabled {
+					continue
+				}
 				_, dup := seen[key]
 				if !dup {
 					seen[key] = struct{}{}
